@@ -73,11 +73,19 @@ def theta_for(W, rng, nf, dmin=1.0):
 
 def fitter_kwargs(W, scen):
     dr = (list(scen['drange']) * u.kpc).to(u.Unit(W.spec.get('d_unit', 'kpc')))
-    return dict(extinction_law=W.extinction(), av_range=list(scen['av_range']), distance_range=dr)
+    av = list(scen['av_range'])
+    how = W.spec.get('args_as', 'list')
+    if how == 'tuple':
+        av = tuple(av)
+    elif how == 'array':
+        av = np.array(av, float)
+    return dict(extinction_law=W.extinction(), av_range=av, distance_range=dr)
 
 
 def filter_args(W, scen):
     names = [f['name'] for f in W.fspec]
+    if W.spec.get('args_as') == 'tuple':
+        names = tuple(names)
     return names, (np.array(scen['theta'], float) * u.arcsec).to(u.Unit(W.spec.get('ap_unit', 'arcsec')))
 
 
